@@ -451,15 +451,19 @@ func runC17(p *engine.Prog, r *engine.Report) {
 			continue
 		}
 		fi := p.Info(fn)
-		// the function that installs into activeTargets from a local map filled per job
+		// the function that installs into activeTargets: from a local map filled per job, or directly inside the loop
+		// over the update's jobs
 		var locals []*ssa.MakeMap
+		var direct []*ssa.MapUpdate
 		for _, in := range allInstrs(fn) {
 			if mu, ok := in.(*ssa.MapUpdate); ok {
 				if _, ok := loadOfField(mu.Map, fAct); ok {
+					viaLocal := false
 					if ex, ok := mu.Value.(*ssa.Extract); ok {
 						if nx, ok := ex.Tuple.(*ssa.Next); ok {
 							if rg, ok := nx.Iter.(*ssa.Range); ok {
 								if mm, ok := rg.X.(*ssa.MakeMap); ok {
+									viaLocal = true
 									locals = append(locals, mm)
 									if fi.T(mu.Key).S != "rk:"+rg.Name() {
 										r.Add("R17.4-per-job-replacement", "install key in "+engine.FuncName(fn), p.Rel(mu.Pos()), "installed under the job's own key", fi.T(mu.Key).S, engine.Violated)
@@ -468,7 +472,57 @@ func runC17(p *engine.Prog, r *engine.Report) {
 							}
 						}
 					}
+					if !viaLocal {
+						direct = append(direct, mu)
+					}
 				}
+			}
+		}
+		// one stored per-job slice: built inside the iteration of its job and stored under that job
+		perJob := func(mu *ssa.MapUpdate, probs *[]string) {
+			jobLoop := loopOf(fi, mu.Block())
+			if jobLoop == nil {
+				*probs = append(*probs, "the per-job slice is not stored inside the loop over the update's jobs")
+				return
+			}
+			// the slice must not be carried across iterations of the job loop
+			var walk func(v ssa.Value, seen map[ssa.Value]bool)
+			walk = func(v ssa.Value, seen map[ssa.Value]bool) {
+				if seen[v] {
+					return
+				}
+				seen[v] = true
+				switch x := v.(type) {
+				case *ssa.Phi:
+					if x.Block() == jobLoop.header {
+						*probs = append(*probs, "the slice is carried from one job to the next")
+						return
+					}
+					for _, e := range x.Edges {
+						walk(e, seen)
+					}
+				case *ssa.Call:
+					if bi, ok := x.Call.Value.(*ssa.Builtin); ok && bi.Name() == "append" {
+						walk(x.Call.Args[0], seen)
+					}
+				case *ssa.MakeSlice:
+					if !jobLoop.blocks[x.Block().Index] {
+						*probs = append(*probs, "the slice is allocated outside the per-job loop")
+					}
+				case *ssa.Slice:
+					if al, ok := x.X.(*ssa.Alloc); ok && jobLoop.blocks[al.Block().Index] {
+						return
+					}
+					*probs = append(*probs, "the slice is a re-slice of "+fi.T(x.X).S)
+				case *ssa.Const:
+				default:
+					*probs = append(*probs, "the slice comes from "+fi.T(v).S)
+				}
+			}
+			walk(mu.Value, map[ssa.Value]bool{})
+			// keyed by the job being translated
+			if !strings.HasPrefix(fi.T(mu.Key).S, "rk:") {
+				*probs = append(*probs, "stored under "+fi.T(mu.Key).S+", not under the job of the update being translated")
 			}
 		}
 		for _, mm := range locals {
@@ -478,50 +532,14 @@ func runC17(p *engine.Prog, r *engine.Report) {
 				if !ok || mu.Map != ssa.Value(mm) {
 					continue
 				}
-				jobLoop := loopOf(fi, mu.Block())
-				if jobLoop == nil {
-					probs = append(probs, "the per-job slice is not stored inside the loop over the update's jobs")
-					continue
-				}
-				// the slice must not be carried across iterations of the job loop
-				var walk func(v ssa.Value, seen map[ssa.Value]bool)
-				walk = func(v ssa.Value, seen map[ssa.Value]bool) {
-					if seen[v] {
-						return
-					}
-					seen[v] = true
-					switch x := v.(type) {
-					case *ssa.Phi:
-						if x.Block() == jobLoop.header {
-							probs = append(probs, "the slice is carried from one job to the next")
-							return
-						}
-						for _, e := range x.Edges {
-							walk(e, seen)
-						}
-					case *ssa.Call:
-						if bi, ok := x.Call.Value.(*ssa.Builtin); ok && bi.Name() == "append" {
-							walk(x.Call.Args[0], seen)
-						}
-					case *ssa.MakeSlice:
-						if !jobLoop.blocks[x.Block().Index] {
-							probs = append(probs, "the slice is allocated outside the per-job loop")
-						}
-					case *ssa.Slice:
-						if al, ok := x.X.(*ssa.Alloc); ok && jobLoop.blocks[al.Block().Index] {
-							return
-						}
-						probs = append(probs, "the slice is a re-slice of "+fi.T(x.X).S)
-					case *ssa.Const:
-					default:
-						probs = append(probs, "the slice comes from "+fi.T(v).S)
-					}
-				}
-				walk(mu.Value, map[ssa.Value]bool{})
-				// keyed by the job being translated
-				if !strings.HasPrefix(fi.T(mu.Key).S, "rk:") {
-					probs = append(probs, "stored under "+fi.T(mu.Key).S+", not under the job of the update being translated")
-				}
+				perJob(mu, &probs)
+			}
+			r.Check(len(probs) == 0, "R17.4-per-job-replacement", "per-job slices in "+engine.FuncName(fn), engine.FuncName(fn), "one fresh slice per job of the update, built inside that job's iteration", strings.Join(probs, "; "))
+		}
+		if len(direct) > 0 && len(locals) == 0 {
+			var probs []string
+			for _, mu := range direct {
+				perJob(mu, &probs)
 			}
 			r.Check(len(probs) == 0, "R17.4-per-job-replacement", "per-job slices in "+engine.FuncName(fn), engine.FuncName(fn), "one fresh slice per job of the update, built inside that job's iteration", strings.Join(probs, "; "))
 		}
